@@ -306,6 +306,19 @@ fn eval<P: Prop>(
     }
 }
 
+type SurveyCases<C> = std::collections::BTreeMap<String, (usize, C, Failure)>;
+
+fn record_survey_typed<P: Prop>(c: &P::Case, f: &Failure, cases: &mut SurveyCases<P::Case>) {
+    let len = serde_json::to_string(c).map(|s| s.len()).unwrap_or(usize::MAX);
+    match cases.get_mut(&f.sig) {
+        Some(e) if e.0 <= len => {}
+        Some(e) => *e = (len, c.clone(), f.clone()),
+        None => {
+            cases.insert(f.sig.clone(), (len, c.clone(), f.clone()));
+        }
+    }
+}
+
 fn record_survey<P: Prop>(p: &P, c: &P::Case, f: Failure, st: &mut Stats) {
     let ex = p.sample(c);
     let full = serde_json::to_value(c).unwrap_or(Value::Null);
@@ -356,6 +369,7 @@ pub fn run_worker<P: Prop>(p: &P, env: &Env, w: usize, nw: usize, outdir: &Path)
     let mut st = Stats::default();
     let mut inflight = Inflight::new(&outdir.join(format!("w{w}.inflight")));
     let mut violation = None;
+    let survey_cases: std::cell::RefCell<SurveyCases<P::Case>> = std::cell::RefCell::new(Default::default());
 
     // deterministic sweep
     let n = p.sweep_len(env);
@@ -365,6 +379,7 @@ pub fn run_worker<P: Prop>(p: &P, env: &Env, w: usize, nw: usize, outdir: &Path)
             st.swept += 1;
             if let Some(f) = eval(p, &c, env, &mut st, &mut inflight, true) {
                 if survey {
+                    record_survey_typed::<P>(&c, &f, &mut survey_cases.borrow_mut());
                     record_survey(p, &c, f, &mut st);
                 } else {
                     violation = Some(shrink_and_report(p, c, f, env, "sweep"));
@@ -427,6 +442,7 @@ pub fn run_worker<P: Prop>(p: &P, env: &Env, w: usize, nw: usize, outdir: &Path)
                             Ok(())
                         }
                     } else if survey {
+                        record_survey_typed::<P>(&c, &f, &mut survey_cases.borrow_mut());
                         record_survey(p, &c, f, &mut st);
                         Ok(())
                     } else {
@@ -459,6 +475,19 @@ pub fn run_worker<P: Prop>(p: &P, env: &Env, w: usize, nw: usize, outdir: &Path)
             }
         } else if let Err(TestError::Abort(r)) = res {
             eprintln!("worker {w}: proptest aborted: {r}");
+        }
+    }
+
+    // survey mode: shrink the smallest example of each bucket (a few per worker)
+    if survey {
+        let mut cases: Vec<(String, (usize, P::Case, Failure))> = survey_cases.into_inner().into_iter().collect();
+        cases.sort_by_key(|(_, (len, _, _))| *len);
+        for (sig, (_, c, f)) in cases.into_iter().take(10) {
+            let v = shrink_and_report(p, c, f, env, "survey");
+            if let Some(e) = st.failures.get_mut(&sig) {
+                e.1 = v.case;
+                e.2 = v.detail;
+            }
         }
     }
 
